@@ -117,6 +117,17 @@ DC_SPECS = {
                       fields=[_f('p', 'dc_both'), _f('q', ['optional', 'dc_struct'], ['value', 'None'])]),
 }
 
+# natively typed field values of every scalar family (constructors must accept already-typed arguments unchanged)
+DC_SPECS['dc_rich'] = dict(name='DcRich', opts={'in_format': ['struct', 'tuple']},
+                           fields=[_f('f', 'fraction'), _f('d', 'date', ['value', "date.fromisoformat('2020-02-02')"]),
+                                   _f('p', 'purepath', ['value', "PurePath('x/y')"]), _f('s', ['set', 'int'], ['factory', 'set']),
+                                   _f('e', 'enum_int', ['value', 'EnumInt.B']), _f('n', ['optional', 'dc_struct'], ['value', 'None']),
+                                   _f('m', ['dict', 'str', 'decimal'], ['factory', 'dict'])])
+# subclass of dc_struct adding a field (a Union[base, subclass] holding a subclass instance must serialise all of it)
+DC_SPECS['dc_sub'] = dict(name='DcSub', opts={}, inherit='dc_struct',
+                          own=[_f('c', 'float', ['value', '1.5'])],
+                          fields=DC_SPECS['dc_struct']['fields'] + [_f('c', 'float', ['value', '1.5'])])
+
 _DC_CACHE: t.Dict[str, type] = {}
 
 
@@ -124,7 +135,12 @@ def dc_class(leaf: str) -> type:
     c = _DC_CACHE.get(leaf)
     if c is None:
         from mc import values
-        c = classes_gen.build_class(DC_SPECS[leaf], build, values.eval_expr, REGISTRY)
+        spec = DC_SPECS[leaf]
+        if spec.get('inherit'):
+            c = classes_gen.build_class(dict(spec, fields=spec['own']), build, values.eval_expr, REGISTRY,
+                                        bases=(dc_class(spec['inherit']),))
+        else:
+            c = classes_gen.build_class(spec, build, values.eval_expr, REGISTRY)
         _DC_CACHE[leaf] = c
     return c
 
@@ -529,6 +545,14 @@ def expressions(tier: str) -> t.List[t.Any]:
     for e in (['union', 'str', ['annot', ['union', 'int', 'float'], 'positive']], ['union', 'enum_mixed', ['list', 'int']],
               ['optional', ['annot', 'str', 'positive']], ['union', ['annot', 'int', 'raises'], 'str'],
               ['union', ['annot', 'str', 'raises'], 'int'], ['list', ['union', ['annot', 'int', 'raises'], 'none']]):
+        add(e)
+    # members where an earlier one accepts (and narrows, or truncates) the typed value of a later one
+    for e in (['union', 'date', 'datetime'], ['union', 'time', 'datetime'], ['union', 'datetime', 'date'],
+              ['union', 'dc_struct', 'dc_sub'], ['union', 'dc_sub', 'dc_struct'], ['list', ['union', 'dc_struct', 'dc_sub']],
+              ['list', ['union', 'date', 'datetime']], ['struct', ['k', ['union', 'dc_struct', 'dc_sub']]],
+              ['union', 'float', 'complex'], ['union', 'decimal', 'fraction'], ['union', 'purepath', 'str'],
+              ['union', 'tuplevar', 'int'] if False else ['union', ['tuplevar', 'int'], ['list', 'int']],
+              ['union', ['set', 'int'], ['list', 'int']], ['union', 'dc_defaults', 'dc_both']):
         add(e)
     for tri in (['union', 'int', 'float', 'str'], ['union', 'str', 'int', 'none'], ['union', 'bool', 'int', 'float'],
                 ['union', 'lit_str', ['list', 'int'], 'none'], ['union', 'dc_struct', 'dc_both', 'str']):
